@@ -442,6 +442,8 @@ class Compiler:
 
     def _compile_statement(self, node: Node) -> None:
         """Compile a statement."""
+        # Instructions map to the statement they belong to (for error locations)
+        self._set_loc(node)
         if isinstance(node, ExpressionStatement):
             self._compile_expression(node.expression)
             self._emit(OpCode.POP)
